@@ -135,13 +135,13 @@ Definition expand_param (db : geodb) (fname : string) (p : param) : xres (list p
   if p_key p =? "geosite" then of_load (load_geosite db "geosite" (p_val p))
   else if p_key p =? "geoip" then of_load (load_geoip db "geoip" (p_val p))
   else if p_key p =? "ext" then
-    let '(file, rest) := cut_char ":" (p_val p) in
-    if (fname =? "domain") || (fname =? "qname") then
-      match rest with None => XCrash (* fields[1]: index out of range, inside a goroutine *)
-                 | Some code => of_load (load_geosite db file code) end
-    else if fname =? "ip" then
-      match rest with None => XCrash | Some code => of_load (load_geoip db file code) end
-    else XErr
+    match cut_char ":" (p_val p) with
+    | (_, None) => XErr      (* since /repo 2540ec6: len(fields) != 2 is a load error (it was a panic in the goroutine) *)
+    | (file, Some code) =>
+        if (fname =? "domain") || (fname =? "qname") then of_load (load_geosite db file code)
+        else if fname =? "ip" then of_load (load_geoip db file code)
+        else XErr
+    end
   else XOk [p].
 
 Fixpoint dat_params (db : geodb) (fname : string) (ps : list param) (acc : list param) : xres (list param) :=
@@ -175,7 +175,8 @@ Definition dat_rule (db : geodb) (r : rule) : xres rule :=
   | XCrash => XCrash
   end.
 
-(* every rule has its own goroutine: a panic in any of them ends the process; otherwise any error wins *)
+(* every rule has its own goroutine: a panic in any of them would end the process (XCrash: no producer is left
+   in the model since 2540ec6; the check still runs such inputs in child processes); otherwise any error wins *)
 Fixpoint dat_combine (l : list (xres rule)) : xres (list rule) :=
   match l with
   | [] => XOk []
@@ -222,9 +223,10 @@ Definition sort_params_func (f : func) : func :=
 Definition sort_params (r : rule) : rule :=
   {| r_funcs := map sort_params_func (r_funcs r); r_out := r_out r |}.
 
+(* since /repo ec2de34 only positive single-condition neighbours merge *)
 Definition mergeable (m r : rule) : bool :=
   match r_funcs m, r_funcs r with
-  | [fm], [fr] => (f_name fm =? f_name fr) && Bool.eqb (f_not fm) (f_not fr)
+  | [fm], [fr] => (f_name fm =? f_name fr) && (negb (f_not fm) && negb (f_not fr))
                   && (out_print (r_out r) =? out_print (r_out m))
   | _, _ => false
   end.
